@@ -6,3 +6,11 @@ from .data import *
 from .encrypt import *
 from .packet import *
 from .protocol import *
+
+from importlib import import_module as _import_module
+
+# The star-imports above also copy module objects that share a name with one of this package's
+# own submodules (e.g. eolib.protocol.net.packet would shadow eolib.packet).
+# Make sure the documented submodules win.
+for _name in ("data", "encrypt", "packet", "protocol"):
+    globals()[_name] = _import_module(f".{_name}", __name__)
